@@ -128,6 +128,7 @@ type Engine struct {
 	Finished    smt.Term
 	Rounds      int
 	GoPolicy    string // "" (unsupported) | "skip"
+	TickerTicks int
 	Stats       ComposeStats
 	ThreadsDone []*Thread
 }
@@ -136,7 +137,7 @@ func NewEngine(prog *ssa.Program, pkg *ssa.Package, opts Opts) *Engine {
 	e := &Engine{C: smt.NewCtx(), Prog: prog, Pkg: pkg, Opts: opts, Fset: prog.Fset,
 		globals: map[*ssa.Global]*Obj{}, fninfo: map[*ssa.Function]*fnInfo{},
 		Encoded: map[*ssa.Function]int{}, StubsUsed: map[string]int{}, AlignHint: map[*Obj]int{},
-		Shape: map[string]int{}, Ghost: map[string]*Obj{}, curThread: -1, shapeSeq: map[string]int{}, chanFinal: map[*Obj]smt.Term{}, globalVals: map[*Obj]interface{}{}}
+		Shape: map[string]int{}, Ghost: map[string]*Obj{}, curThread: -1, shapeSeq: map[string]int{}, TickerTicks: 2, chanFinal: map[*Obj]smt.Term{}, globalVals: map[*Obj]interface{}{}}
 	if e.Opts.DefaultUnroll == 0 {
 		e.Opts.DefaultUnroll = 64
 	}
